@@ -90,6 +90,13 @@ def db_obligations(prop: str) -> list:
     for ob in C05.pragma_obligations():
         ob.prop = prop
         obs.append(ob)
+    # results are functions of the database content: no function memoises or keeps module-level state (the purity
+    # half of C16's static contract; a cached read survives remove/add and the switch to another database)
+    from contracts import C16
+    for ob in C16.static_obligations():
+        if ':purity:' in ob.name:
+            ob.prop = prop
+            obs.append(ob)
     fks, colls = _schema_facts()
     src = str(REPO / 'wn' / 'schema.sql')
     wrong = sorted(f'{t}.{c} -> {fks.get((t, c))} (expected {want})' for (t, c), want in FOREIGN_KEYS.items()
@@ -195,12 +202,21 @@ def lexicon_row_obligations(prop: str) -> list:
     import wn._core as core
     from vc.sqlvc import parse as P
     obs = []
-    tree = ast.parse(textwrap.dedent(inspect.getsource(core._to_lexicon)))
+    # what _to_lexicon does with a row, decided by running it (straight-line code) on a row of sentinels: the value
+    # at position i ends up in which attribute of the Lexicon - independent of the names of its local variables
+    sentinels = tuple(f'<column {i}>' for i in range(10))
     unpack = None
-    for n in ast.walk(tree):
-        if isinstance(n, ast.Assign) and isinstance(n.targets[0], ast.Tuple):
-            unpack = [e.id for e in n.targets[0].elts if isinstance(e, ast.Name)]
-            break
+    try:
+        lx = core._to_lexicon(sentinels)
+        where = {}
+        for attr in ('_id', 'id', 'label', 'language', 'email', 'license', 'version', 'url', 'citation', 'logo'):
+            v = getattr(lx, attr, None)
+            if v in sentinels:
+                where[sentinels.index(v)] = 'rowid' if attr == '_id' else attr
+        if len(where) == 10:
+            unpack = [where[i] for i in range(10)]
+    except Exception:       # noqa: BLE001
+        unpack = None
     for fn in (Q._get_lexicon, Q.find_lexicons):
         t = ast.parse(textwrap.dedent(inspect.getsource(fn)))
         cols = None
@@ -218,7 +234,7 @@ def lexicon_row_obligations(prop: str) -> list:
                 break
         ok = unpack is not None and cols == unpack
         obs.append(Obligation(f'wn._queries.{fn.__name__}:columns', prop, 'static', decided=bool(ok),
-                              detail=f'selects {cols}; _to_lexicon unpacks {unpack}',
+                              detail=f'selects {cols}; _to_lexicon puts the row positions into the attributes {unpack}',
                               functions=(f'wn._queries.{fn.__name__}', 'wn._core._to_lexicon')))
     return obs
 
@@ -284,4 +300,88 @@ def wrapper_obligations(prop: str) -> list:
         obs.append(Obligation(f'wn._core.{name}:wrapper', prop, 'post', decided=ok,
                               detail=why or f'Wordnet(lang=lang, lexicon=lexicon).{name}(<the other arguments>)',
                               functions=(f'wn._core.{name}',), source=source_span(fn)))
+    return obs
+
+
+# -- selection scope: where a fresh Wordnet may come from --------------------------------------------------------------
+# A function that is handed a Wordnet (or an entity that carries one) has to query THROUGH it; a call of a
+# module-level wrapper (wn.synsets(...), ...) or a newly built Wordnet() inside the library answers from a different
+# lexicon selection.  Every site in the package (web.py excluded: it is a separate application) must be one of these:
+FRESH_WORDNET_SITES = {
+    'wn._core:_LexiconElement.__init__:Wordnet': 'fallback when an entity is created without a Wordnet (never taken '
+                                                 'on entities produced by queries: coreflows pass _wordnet)',
+    'wn._core:Synset.translate:synsets': 'translation target: synsets(ili=..., lang=lang, lexicon=lexicon) with the '
+                                         'lexicon/lang arguments of translate() (contract: C10 flow obligations)',
+    'wn._core:lexicons:Wordnet': 'module-level wrapper (contract: :wrapper)',
+    'wn.__main__:_lexicons:lexicons': 'command line listing',
+}
+for _n in ('word', 'words', 'sense', 'senses', 'synset', 'synsets', 'ili', 'ilis'):
+    FRESH_WORDNET_SITES[f'wn._core:{_n}:Wordnet'] = 'module-level wrapper (contract: :wrapper)'
+_WRAPPERS = {'word', 'words', 'sense', 'senses', 'synset', 'synsets', 'ili', 'ilis', 'lexicons'}
+
+
+def scope_site_obligations(prop: str) -> list:
+    import glob
+    import os
+    sites = []
+    nfun = 0
+    for path in sorted(glob.glob(str(REPO / 'wn' / '*.py'))):
+        mod = 'wn.' + os.path.basename(path)[:-3]
+        if mod in ('wn.web',):
+            continue
+        tree = ast.parse(open(path).read())
+        # names bound to the wn package / wn._core module in this file, and wrapper names imported directly
+        pkg_names, direct = set(), set()
+        for n in ast.walk(tree):
+            if isinstance(n, ast.Import):
+                for a in n.names:
+                    if a.name in ('wn', 'wn._core'):
+                        pkg_names.add((a.asname or a.name).split('.')[0])
+            elif isinstance(n, ast.ImportFrom):
+                for a in n.names:
+                    if (n.module or '') in ('wn', 'wn._core') and a.name in _WRAPPERS | {'Wordnet'}:
+                        direct.add(a.asname or a.name)
+                    if (n.module or '') == 'wn' and a.name == '_core':
+                        pkg_names.add(a.asname or a.name)
+        if mod == 'wn._core':
+            direct |= _WRAPPERS | {'Wordnet'}
+
+        def visit(node, qual):
+            nonlocal nfun
+            for ch in ast.iter_child_nodes(node):
+                if isinstance(ch, (ast.FunctionDef, ast.AsyncFunctionDef)):
+                    nfun += 1
+                    visit(ch, f'{qual}.{ch.name}' if qual else ch.name)
+                elif isinstance(ch, ast.ClassDef):
+                    visit(ch, f'{qual}.{ch.name}' if qual else ch.name)
+                else:
+                    if isinstance(ch, ast.Call):
+                        f = ch.func
+                        what = None
+                        if isinstance(f, ast.Name) and f.id in direct:
+                            what = f.id
+                        elif isinstance(f, ast.Attribute) and f.attr in _WRAPPERS | {'Wordnet'}:
+                            base = f.value
+                            while isinstance(base, ast.Attribute):
+                                base = base.value
+                            if isinstance(base, ast.Name) and base.id in pkg_names:
+                                what = f.attr
+                        if what and qual:
+                            sites.append((mod, qual, what, ch.lineno))
+                    visit(ch, qual)
+        visit(tree, '')
+    obs = [Obligation('wn:scope:fresh-wordnet-sites:coverage', prop, 'static', decided=nfun > 300,
+                      detail=f'{nfun} functions scanned', functions=('wn.*',))]
+    seen = set()
+    for mod, qual, what, line in sites:
+        k = f'{mod}:{qual}:{what}'
+        if k in seen:
+            continue
+        seen.add(k)
+        ok = k in FRESH_WORDNET_SITES
+        obs.append(Obligation(f'{mod}.{qual}:scope:fresh-{what}', prop, 'static', decided=ok,
+                              detail=(f'reviewed: {FRESH_WORDNET_SITES[k] or "module-level wrapper"}' if ok else
+                                      f'line {line}: calls {what}(...) - a new default lexicon selection - instead of '
+                                      'querying through the Wordnet it was given'),
+                              functions=(f'{mod}.{qual}',), source=f'{mod}:{line}'))
     return obs
